@@ -159,7 +159,8 @@ def failed_props(ob):
 
 def is_missing_model(ob):
     fp = failed_props(ob)
-    return any('no body' in (p.get('desc') or '') or (p.get('name') or '').endswith('no-body') for p in fp) and True
+    return any('no body' in (p.get('desc') or '') or (p.get('name') or '').endswith('no-body')
+               or 'undefined function should be unreachable' in (p.get('desc') or '') for p in fp)
 
 
 def check_property(prop, tier, configs=None, only=None, keep=False, write_evidence=True):
@@ -222,10 +223,39 @@ def check_property(prop, tier, configs=None, only=None, keep=False, write_eviden
         # ---- report
         import replay
         viol_lines = []
+        # known findings: a failing obligation that matches an open finding is discharged a second time with the
+        # finding's input region excluded (requires !predicate); only if that residual passes is it a KNOWN-FINDING
+        residual = []
         for ob in violations:
             hit = replay.match_known(ob, known)
-            if hit:
+            if not hit:
+                continue
+            rq = replay.residual_requires(ob, hit)
+            if rq is None:          # the finding covers every input of this instantiation
                 known_hits.append((ob, hit))
+                ob.known = hit
+                continue
+            cc = copy.copy(ob.contract)
+            cc.requires = list(cc.requires) + [rq]
+            rob = P.build_obligation(prop, ob.cfgs[0], dbs[ob.cfgs[0]], ob.fn, cc)
+            rob.parent = ob
+            rob.hit = hit
+            residual.append(rob)
+        if residual:
+            P.run_obligations(residual, sc, tier, progress=False)
+            for rob in residual:
+                v, why = classify(rob)
+                if v == 'pass':
+                    known_hits.append((rob.parent, rob.hit))
+                    rob.parent.known = rob.hit
+                    n_cbmc += rob.result['n_props']
+                    n_discharged += rob.result['n_props']
+                elif v == 'undecided':
+                    undecided.append((rob.parent, 'residual obligation (known finding region excluded) undecided: ' + (why or '')))
+                    rob.parent.known = rob.hit
+                # v == 'fail': a violation outside the known region -> reported below as a VIOLATION
+        for ob in violations:
+            if getattr(ob, 'known', None):
                 continue
             rp = replay.record_and_replay(prop, ob, dbs[ob.cfgs[0]], sc)
             if rp['status'] == 'not-reproduced':
@@ -233,8 +263,13 @@ def check_property(prop, tier, configs=None, only=None, keep=False, write_eviden
                 continue
             viol_lines.append('VIOLATION property=%s replay=%s%s' % (prop, rp['path'], '' if rp['status'] == 'confirmed' else ' no-failing-input-found'))
             print('  failed: %s  [%s]  %s' % (ob.ident(), ','.join(ob.cfgs), '; '.join((p.get('desc') or '')[:100] for p in failed_props(ob)[:3])))
+        seen_k = set()
         for ob, hit in known_hits:
-            print('KNOWN-FINDING: property=%s %s' % (prop, hit['summary']))
+            if hit['id'] in seen_k:
+                continue
+            seen_k.add(hit['id'])
+            n = sum(1 for o, h in known_hits if h['id'] == hit['id'])
+            print('KNOWN-FINDING: property=%s %s [%s; %d function instantiation(s) in this run]' % (prop, hit['summary'], hit['id'], n))
         for l in viol_lines:
             print(l)
         if bad_canaries:
